@@ -19,6 +19,7 @@ SUT_WEIGHTS = [
     ("CategoricalDiscretizer", 4),
     ("OrdinalDiscretizer", 4),
     ("StringDiscretizer", 4),
+    ("BaseDiscretizer", 9),
 ]
 ALLOWED_KINDS = {
     "BinaryCarver": ("quant", "cat", "ord"),
@@ -31,6 +32,7 @@ ALLOWED_KINDS = {
     "CategoricalDiscretizer": ("cat_str",),
     "OrdinalDiscretizer": ("ord",),
     "StringDiscretizer": ("cat_num",),
+    "BaseDiscretizer": ("quant", "cat", "ord"),
 }
 TARGET_OF = {
     "BinaryCarver": "binary",
@@ -393,8 +395,88 @@ def generate_world(rng, tier="quick", force_class=None, min_features=1, max_feat
             params["max_n_mod"] = min(params["max_n_mod"], 3)
         if sut_class != "ContinuousCarver":
             params["sort_by"] = rng.choice(["tschuprowt", "cramerv"])
+    if sut_class == "BaseDiscretizer":
+        params.update(_hand_built_orders(rng, world))
+        params["output_dtype"] = rng.choice(["float", "str"])
+        params["dropna"] = rng.random() < 0.6
     world["sut"] = {"class": sut_class, "params": params}
     return world
+
+
+def _hand_built_orders(rng, world):
+    """values_orders a user could hand to BaseDiscretizer directly (the path load_discretizer takes):
+    groups of observed values, quantitative bounds possibly listed out of order."""
+    orders, dtypes = {}, {}
+    for feat in world["features"]:
+        observed = []
+        seen = set()
+        for v in feat["values"]:
+            if v is not None and repr(v) not in seen:
+                seen.add(repr(v))
+                observed.append(v)
+        has_nan = any(v is None for v in feat["values"])
+        groups = []
+        if feat["kind"] == "quant":
+            dtypes[feat["name"]] = "float"
+            distinct = sorted({float(v) for v in observed})
+            k = min(len(distinct), rng.randint(0, 5))
+            bounds = sorted(rng.sample(distinct, k)) if k else []
+            bounds = [b for b in bounds if b != float("inf")]
+            groups = [[b, [b]] for b in bounds] + [[float("inf"), [float("inf")]]]
+            # merging two adjacent bounds: the group is led by its larger bound
+            if len(groups) > 2 and rng.random() < 0.3:
+                i = rng.randrange(len(groups) - 1)
+                groups[i + 1][1] = groups[i][1] + groups[i + 1][1]
+                del groups[i]
+            # bounds listed out of order: transform is "first group whose bound is >= the value"
+            if len(groups) > 2 and rng.random() < 0.3:
+                rng.shuffle(groups)
+        else:
+            dtypes[feat["name"]] = "str"
+            values = list(observed)
+            if feat["kind"] == "ord":
+                values = [v for v in feat.get("ranking", []) if v in observed] + [v for v in observed if v not in feat.get("ranking", [])]
+            rng.shuffle(values)
+            while values:
+                size = min(len(values), rng.choice([1, 1, 2, 3]))
+                members, values = values[:size], values[size:]
+                if any(not isinstance(m, str) for m in members):
+                    # numeric-looking categories are grouped under a string form, as StringDiscretizer does
+                    first = members[0]
+                    text = str(int(first)) if isinstance(first, float) and first.is_integer() else str(first)
+                    if text in members:
+                        members.remove(text)
+                    leader = text
+                    members = members + [leader]
+                else:
+                    leader = members[-1]
+                groups.append([leader, members])
+            # a value must not appear in two groups (a number's string form may already be a member)
+            flat = set()
+            clean = []
+            for leader, members in groups:
+                members = [m for m in members if repr(m) not in flat or m == leader]
+                if repr(leader) in flat:
+                    continue
+                for m in members:
+                    flat.add(repr(m))
+                clean.append([leader, members])
+            groups = clean
+            if rng.random() < 0.4 and groups:
+                i = rng.randrange(len(groups))
+                if rng.random() < 0.5:
+                    groups[i][1] = ["__OTHER__"] + groups[i][1]
+                else:
+                    groups.insert(i, ["__OTHER__", ["__OTHER__"]])
+        if has_nan or rng.random() < 0.15:
+            choice = rng.random()
+            if choice < 0.5 or not groups:
+                groups.append(["__NAN__", ["__NAN__"]])  # own modality, last as the library keeps it
+            elif choice < 0.85:
+                i = rng.randrange(len(groups))
+                groups[i][1] = ["__NAN__"] + groups[i][1]
+        orders[feat["name"]] = groups
+    return {"given_orders": orders, "input_dtypes": dtypes}
 
 
 # --------------------------------------------------------------------------------------
@@ -524,6 +606,24 @@ def build_sut(world, listing_perm=None, overrides=None, only=None):
         )
     if cls == "StringDiscretizer":
         return StringDiscretizer(qualitative_features=cat, **common)
+    if cls == "BaseDiscretizer":
+        from AutoCarver.discretizers import BaseDiscretizer, GroupedList  # pylint: disable=C0415
+
+        names = quant + cat + ordi
+        return BaseDiscretizer(
+            features=names,
+            values_orders={
+                name: GroupedList({leader: list(members) for leader, members in params["given_orders"][name]})
+                for name in names
+            },
+            input_dtypes={name: params["input_dtypes"][name] for name in names},
+            output_dtype=params["output_dtype"],
+            dropna=params["dropna"],
+            str_nan="__NAN__",
+            str_default="__OTHER__",
+            verbose=False,
+            **common,
+        )
     raise ValueError(cls)
 
 
